@@ -194,8 +194,9 @@ CHECKS = {
         "fieldsDec_arrN/arrI/mapN/mapI), body_reframed, enum_reframed, width-generic accessor theorems of C04/C05, first-byte facts of valid trees (startNB_encW, startOk_encW). "
         "The enum wrapper [index, body] may be definite or INDEFINITE (the generated decoder rejected the latter until the repair of K8 in /repo; the former counterexample is the positive "
         "obligation derive_decode_reframed_K8_repaired; a definite wrapper of another length is still an error: derive_enum_wrong_wrapper_length); reframed_examples: concrete trees with all heads "
-        "widened, indefinite bodies and indefinite wrappers are in `reframes`. The full statement derive_decode_reframed_statement (any valid tree with the documented value and unchunked "
-        "strings) is kept as a definition; it is proved with `reframes` as ONE extra decidable hypothesis. "
+        "widened, indefinite bodies and indefinite wrappers are in `reframes`. The FULL statement derive_decode_reframed_statement (ANY valid tree with the documented value and unchunked strings decodes to the value, exactly consumed) is a theorem: "
+        "derive_decode_reframed_full = derive_decode_reframed (trees in the executable relation `reframes`) + reframes_complete (`rf` only looks at the data-model value: rf_sim, by mutual induction over "
+        "the schema with a value-equivalence `Sim` on wire trees; the preferred tree is in the relation: pref_rf). "
         "The relation is tied to the documented format in both directions: reframes_sound (every tree in the relation has value w = specTy t v and no chunked strings, so the "
         "theorem is the statement plus ONE decidable hypothesis: derive_decode_reframed_partial2) and reframes_preferred (the preferred tree of specTy t v, whose bytes are the "
         "derived encoding by C08, is in the relation for every schema and value; derive_roundtrip_from_reframed re-derives the round trip from the re-framing theorem). "
